@@ -58,10 +58,14 @@ ObjsOk(r) == /\ Len(r.objs) >= 1
 
 -----------------------------------------------------------------------------
 (* inversions *)
+DName == "data-vector-is-weighted-re-plus-im-product-in-object-order"
+FName == "curvature-matrix-is-weighted-re-plus-im-gram-plus-diagonal-term"
 InvWant(r) ==
     LET t == TOf(r.objs, Cen(r), Bl(r))
         wt == Wts(r)
     IN [t |-> t, d |-> DMap(t, r.v, wt), f |-> FMap(t, wt, r.objs)]
+
+Want0(r) == IF ObjsOk(r) THEN LET want == InvWant(r) IN [d |-> want.d, f |-> want.f] ELSE << >>
 
 ClassOk(r) ==
     CASE r.form = "mapping" -> r.cls = "InversionInterferometerMapping"
@@ -89,39 +93,49 @@ InvClauses(r) ==
                 ELSE Cl("class-follows-settings", ClassOk(r))
                      \o Cl("transformed-mapping-matrix-is-forward-transform-of-each-column",
                            r.t = << >> \/ (IsGMat(r.t, K, T) /\ r.t = want.t))
-                     \o Cl("data-vector-is-weighted-re-plus-im-product-in-object-order", IsVec(r.d, T) /\ r.d = want.d)
-                     \o Cl("curvature-matrix-is-weighted-re-plus-im-gram-plus-diagonal-term", IsMat(r.f, T, T) /\ r.f = want.f)
+                     \o Cl(DName, IsVec(r.d, T) /\ r.d = want.d)
+                     \o Cl(FName, IsMat(r.f, T, T) /\ r.f = want.f)
                      \o Cl("curvature-matrix-symmetric", IsMat(r.f, T, T) /\ \A a \in 1 .. T : \A c \in 1 .. T : r.f[a][c] = r.f[c][a])
                      \o Cl("curvature-matrix-reread-agrees", r.f2 = r.f))
 
-\* recognised defect forms of the w-tilde class (each is a specific, documented-vs-code disagreement); the signature names
-\* them only when they explain EVERY failed value clause of the record, otherwise the generic signature is given
-DBad(r) == ~ (IsVec(r.d, Total(r.objs)) /\ r.d = InvWant(r).d)
-FBad(r) == ~ (IsMat(r.f, Total(r.objs), Total(r.objs)) /\ r.f = InvWant(r).f)
-FirstBlockOf(r, d) == Len(r.objs) > 1 /\ r.d = SubSeq(d, 1, Width(r.objs[1]))
-DWhy(r) ==
-    LET own == InvWant(r).d
-        donor == DMap(InvWant(r).t, r.vdonor, Wts(r))
-        shared == r.tables = "shared" /\ r.vdonor # r.v
-    IN IF ~ DBad(r) THEN ""
-       ELSE IF shared /\ r.d = donor THEN ":data_vector-from-the-dirty-image-of-the-w-tilde-object-not-from-own-data"
-       ELSE IF shared /\ FirstBlockOf(r, donor) THEN ":data_vector-from-the-dirty-image-of-the-w-tilde-object-not-from-own-data:data_vector-first-object-only"
-       ELSE IF FirstBlockOf(r, own) THEN ":data_vector-first-object-only"
-       ELSE "?"
-FWhy(r) ==
-    LET T == Total(r.objs)
-    IN IF ~ FBad(r) THEN ""
-       ELSE IF HasUnreg(r) /\ IsMat(r.f, T, T) /\ r.f = Curvature(InvWant(r).t, Wts(r)) THEN ":curvature_matrix-without-diagonal-term-on-unregularised"
-       ELSE "?"
+\* signature of an inversion record: call site : noise class : object layout (or what went wrong before any value came back)
 InvSig(r) ==
     IF ~ ObjsOk(r) THEN "inv:malformed"
     ELSE LET site == r.form \o ":" \o r.route
-             generic == site \o ":" \o NoiseClass(r) \o ":" \o Layout(r)
          IN CASE r.raised -> site \o ":raises-" \o r.err
               [] r.off -> site \o ":off-lattice"
-              [] r.form = "w_tilde" /\ (DBad(r) \/ FBad(r)) /\ ClassOk(r) /\ r.f2 = r.f ->
-                    IF DWhy(r) = "?" \/ FWhy(r) = "?" THEN generic ELSE "w_tilde" \o DWhy(r) \o FWhy(r)
-              [] OTHER -> generic
+              [] OTHER -> site \o ":" \o NoiseClass(r) \o ":" \o Layout(r)
+
+\* recognised defect forms of the w-tilde class (each a specific documented-vs-code disagreement).  A failed value clause
+\* that is EXACTLY explained by such forms is reported under their signatures (one rejection line per form); every other
+\* failed clause of the record is reported under the generic signature.
+SigDonor == "w_tilde:data_vector:from-the-dirty-image-of-the-w-tilde-object-not-from-own-data"
+SigFirst == "w_tilde:data_vector:first-object-only"
+SigNoDiag == "w_tilde:curvature_matrix:without-diagonal-term-on-unregularised"
+FirstBlockOf(r, d) == Len(r.objs) > 1 /\ r.d = SubSeq(d, 1, Width(r.objs[1]))
+DDefects(r, want) ==
+    LET own == want.d
+        donor == DMap(want.t, r.vdonor, Wts(r))
+        shared == r.tables = "shared" /\ r.vdonor # r.v
+    IN IF IsVec(r.d, Total(r.objs)) /\ r.d = own THEN << >>
+       ELSE IF shared /\ r.d = donor THEN << SigDonor >>
+       ELSE IF shared /\ FirstBlockOf(r, donor) /\ ~ FirstBlockOf(r, own) THEN << SigDonor, SigFirst >>
+       ELSE IF FirstBlockOf(r, own) THEN << SigFirst >>
+       ELSE << >>
+FDefects(r, want) ==
+    LET T == Total(r.objs)
+    IN IF IsMat(r.f, T, T) /\ r.f # want.f /\ HasUnreg(r) /\ r.f = Curvature(want.t, Wts(r)) THEN << SigNoDiag >> ELSE << >>
+InvGroups(r, f) ==
+    IF r.form = "w_tilde" /\ ObjsOk(r) /\ ~ r.raised /\ ~ r.off
+    THEN LET want == InvWant(r)
+             ds == IF \E n \in DOMAIN f : f[n] = DName THEN DDefects(r, want) ELSE << >>
+             fs == IF \E n \in DOMAIN f : f[n] = FName THEN FDefects(r, want) ELSE << >>
+             explained == (IF ds # << >> THEN {DName} ELSE {}) \cup (IF fs # << >> THEN {FName} ELSE {})
+             rest == SelectSeq(f, LAMBDA c : c \notin explained)
+         IN [k \in 1 .. Len(ds) |-> [clauses |-> << DName >>, sig |-> ds[k], want |-> [d |-> want.d, f |-> want.f]]]
+            \o [k \in 1 .. Len(fs) |-> [clauses |-> << FName >>, sig |-> fs[k], want |-> [d |-> want.d, f |-> want.f]]]
+            \o (IF rest = << >> THEN << >> ELSE << [clauses |-> rest, sig |-> InvSig(r), want |-> [d |-> want.d, f |-> want.f]] >>)
+    ELSE << [clauses |-> f, sig |-> InvSig(r), want |-> Want0(r)] >>
 
 -----------------------------------------------------------------------------
 (* mapped reconstructions in fixed point: s, data, image are round(G x) of the real quantities (the reconstruction in the   *)
@@ -218,10 +232,16 @@ TabClauses(r) ==
                     \o Cl("dataset-dirty-image-is-adjoint-of-weighted-visibilities", IsVec(r.dirty, P) /\ r.dirty = want.dirty)
                     \o Cl("dataset-noise-value-is-first-noise-entry", r.nv_ok)
                [] OTHER -> << "unknown-api" >>)
+\* the five table functions of the w-tilde formalism; a body that returns nothing or rejects the documented caller's arguments
+StubSites == {"util:w_tilde_data_interferometer_from", "util:w_tilde_curvature_interferometer_from",
+              "util:w_tilde_curvature_preload_interferometer_from", "util:w_tilde_via_preload_from",
+              "util:curvature_matrix_via_w_tilde_curvature_preload_interferometer_from"}
 TabSig(r) ==
-    r.site \o (IF r.raised THEN ":raises-" \o r.err
-               ELSE IF ~ r.ret THEN ":returns-nothing"
-               ELSE IF r.off THEN ":off-lattice" ELSE "")
+    IF r.site \in StubSites /\ ((~ r.raised /\ ~ r.ret) \/ (r.raised /\ r.err = "TypeError"))
+    THEN "util:w-tilde-table-functions:no-implementation"
+    ELSE r.site \o (IF r.raised THEN ":raises-" \o r.err
+                    ELSE IF ~ r.ret THEN ":returns-nothing"
+                    ELSE IF r.off THEN ":off-lattice" ELSE "")
 
 -----------------------------------------------------------------------------
 IsTab(r) == r.api \in {"wtilde", "preload", "compose", "expand", "wdata", "curvpre", "mvis", "dvec", "dsw"}
@@ -246,12 +266,16 @@ TraceInit == /\ i = 1
              /\ shape = << 1, 1 >> /\ U = {} /\ org = << 0, 0 >> /\ B = << >>
              /\ phase = "trace" /\ inp = << >> /\ obs = << >>
 
+Groups(r, f) == IF r.api = "inv" THEN InvGroups(r, f) ELSE << [clauses |-> f, sig |-> Sig(r), want |-> Want(r)] >>
+
 TraceNext ==
     /\ i <= Len(Trace)
     /\ LET r == Trace[i]
            f == Clauses(r)
        IN IF f = << >> THEN TRUE
-          ELSE PrintT(ToJson([k |-> "reject", i |-> i, id |-> r.id, clauses |-> f, sig |-> Sig(r), want |-> Want(r)]))
+          ELSE LET g == Groups(r, f)
+               IN \A n \in 1 .. Len(g) :
+                     PrintT(ToJson([k |-> "reject", i |-> i, id |-> r.id, clauses |-> g[n].clauses, sig |-> g[n].sig, want |-> g[n].want]))
     /\ i' = i + 1
     /\ UNCHANGED vars
 
